@@ -230,7 +230,13 @@ fn with_source<T>(file: &str, f: impl FnOnce(&[String]) -> T) -> T {
     SRC_CACHE.with(|c| {
         let mut c = c.borrow_mut();
         let lines = c.entry(file.to_string()).or_insert_with(|| {
-            std::fs::read_to_string(file).map(|s| s.lines().map(|l| l.to_string()).collect()).unwrap_or_default()
+            // background runs started from a binary copy read a snapshot of the sources, so that
+            // later edits of /repo do not change the text their debug info points at
+            let path = match std::env::var("VERIF_SRC_SNAPSHOT") {
+                Ok(root) => file.replacen("/repo/", &root, 1),
+                Err(_) => file.to_string(),
+            };
+            std::fs::read_to_string(path).map(|s| s.lines().map(|l| l.to_string()).collect()).unwrap_or_default()
         });
         f(lines)
     })
